@@ -8,6 +8,7 @@ f3_0:
   call f10_0
   call f8_1
   call f15_1
+  mov wvsv1(%rip),%rax
   ret
 .section .text.f3_1,"ax",@progbits
 .globl f3_1
@@ -16,4 +17,6 @@ f3_1:
   ret
   call f15_1
   call f22_0
+  mov wvsv0@GOTPCREL(%rip),%rax
+  mov wvsv1(%rip),%rax
   ret
